@@ -39,6 +39,8 @@ QUICK_FLAGS = {"succ.1.2", "succ.2.1", "succ.3.2", "succ.1.3", "succ.2.3",
                "signs.stop-light-ref-none.3",
                "intersection.in21.1", "intersection.in21.2", "intersection.st21.2", "intersection.st21.3",
                "intersection.cross.3", "intersection.in22.3"}
+# 18 symbolic intersection flags are 262144 structures per obligation, beyond the thorough budget: these five stay at their defaults
+FULL_SKIP = {"intersection.le21.1", "intersection.le21.2", "intersection.ri22.2", "intersection.ri22.3", "intersection.in22.2"}
 TYPES = {1: {LaneletType.URBAN}, 2: {LaneletType.HIGHWAY}, 3: {LaneletType.URBAN, LaneletType.SIDEWALK}}
 GEOM = {1: (0.0, 0.0), 2: (10.0, 0.0), 3: (0.0, 5.0)}  # x0, y0 of 10 x 3 lanelets
 KINDS = ["succ", "adj", "signs", "lights", "intersection"]
@@ -49,7 +51,7 @@ class Spec:
 
     def __init__(self, V, kind, full=False):
         def f(name, default):
-            if name.split(".")[0] != kind or not (full or name in QUICK_FLAGS):
+            if name.split(".")[0] != kind or not (full or name in QUICK_FLAGS) or name in FULL_SKIP:
                 return default
             return V.flag(name)
 
